@@ -143,13 +143,13 @@ func c10(r *core.Run) {
 	r.Rule = "exhaustive TLC run of MCLog (every store satisfying Log.tla gives a gap-free, repeat-free chain of reads for all limits and resume points: next tokens and event tokens, fresh or reused tokens, partial pages); random call sequences (append with rich type/JSON/timestamp inputs, read with limits -1..5, streaming reads, save/load offsets, resuming from every token handed out, two separately created stores per run) against the real memory, SQLite (file, :memory:, batched streams) and durable-streams stores, recorded and validated against LogTrace.tla; a case is one (store kind, sequence)"
 	r.MustHold(core.TLCOpts{Module: "MCLog", Timeout: 10 * time.Minute})
 	n := r.Pick(40, 600)
-	base := storedrv.Opts{Ops: 70, Limits: []int{-1, 0, 1, 2, 3, 5}, EventToks: true, Streams: true, Zones: true, SecondsZone: true}
+	base := storedrv.Opts{Ops: 70, Limits: []int{-1, 0, 1, 2, 3, 5}, EventToks: true, Streams: true, Zones: true, SecondsZone: true, Concurrent: 7}
 	for i, kind := range storedrv.Kinds {
 		o := base
 		if kind == "durable" {
 			// main durable-streams runs steer around the listed findings (D8): unlimited reads resumed from
 			// next offsets, per-event offsets not examined; the probes below keep reporting the findings
-			o.Limits, o.EventToks, o.NoHugeNumbers = []int{-1, 0}, false, true
+			o.Limits, o.EventToks, o.NoHugeNumbers, o.Concurrent = []int{-1, 0}, false, true, 3
 			c10RunCfg(r, kind, n, o, "c10", 1000+uint64(i), "LogTrace_PartialOpaque.cfg")
 			continue
 		}
